@@ -1084,3 +1084,148 @@ Proof.
   { rewrite has_sp_nl_joinl by exact HM. apply existsb_false. apply fmt_lines_init_ends. }
   destruct (f_at_end cfg); [apply has_sp_nl_trail_nl|]; exact E.
 Qed.
+
+(* ====================================================================== C: at most one blank line in a row *)
+Fixpoint has3nl (s : list Z) : bool :=
+  match s with
+  | a :: ((b :: c :: _) as r) => ((a =? NL) && (b =? NL) && (c =? NL)) || has3nl r
+  | _ => false
+  end.
+
+(* two empty lines in a row that are followed by a further line *)
+Fixpoint dbl (t : list (list Z)) : bool :=
+  match t with
+  | [] => false
+  | l :: r => match r with
+              | l' :: (_ :: _) => (is_nil l && is_nil l') || dbl r
+              | _ => false
+              end
+  end.
+
+Lemma has3nl_nonNL c s : c <> NL -> has3nl (c :: s) = has3nl s.
+Proof.
+  intros H. apply Z.eqb_neq in H. destruct s as [|b [|d t]]; try reflexivity.
+  cbn [has3nl]. rewrite H. reflexivity.
+Qed.
+
+Lemma has3nl_pass l s : noNL l -> has3nl (l ++ s) = has3nl s.
+Proof.
+  induction l as [|c l IH]; intros H; [reflexivity|]. inversion H; subst.
+  cbn [app]. rewrite has3nl_nonNL by assumption. apply IH. assumption.
+Qed.
+
+Lemma has3nl_nl_line c l s : c <> NL -> has3nl (NL :: (c :: l) ++ s) = has3nl ((c :: l) ++ s).
+Proof.
+  intros H. cbn [app]. apply Z.eqb_neq in H. destruct (l ++ s) as [|d t].
+  - reflexivity.
+  - cbn [has3nl]. rewrite H, andb_false_r. reflexivity.
+Qed.
+
+Lemma has3nl_flat t : Forall noNL t -> has3nl (flat t) = dbl t.
+Proof.
+  induction t as [|l r IH]; intros H; [reflexivity|]. inversion H as [|? ? Hl Hr]; subst.
+  specialize (IH Hr). rewrite flat_cons. destruct l as [|c l].
+  - cbn [app is_nil andb]. destruct r as [|l' r'].
+    + reflexivity.
+    + rewrite flat_cons in *. inversion Hr as [|? ? Hl' Hr']; subst. destruct l' as [|c' l'].
+      * cbn [app is_nil] in *. destruct r' as [|y1 z1].
+        -- reflexivity.
+        -- rewrite flat_cons in *. cbn [dbl is_nil andb orb]. cbn [has3nl]. rewrite Z.eqb_refl. reflexivity.
+      * inversion Hl'; subst.
+        assert (E : has3nl (NL :: NL :: (c' :: l') ++ flat r') = has3nl (NL :: (c' :: l') ++ flat r')).
+        { cbn [app has3nl]. apply Z.eqb_neq in H2. rewrite H2, andb_false_r. reflexivity. }
+        rewrite E, IH. destruct r' as [|y1 z1]; reflexivity.
+  - inversion Hl; subst. rewrite has3nl_nl_line by assumption.
+    rewrite has3nl_pass by assumption. rewrite IH.
+    destruct r as [|l' [|y1 z1]]; reflexivity.
+Qed.
+
+Lemma dbl_sq' t : dbl (sq' t) = false.
+Proof.
+  induction t as [|l r IH]; [reflexivity|]. cbn [sq'].
+  destruct r as [|l' [|y1 z1]].
+  - reflexivity.
+  - reflexivity.
+  - destruct (is_nil l && is_nil l') eqn:E; [exact IH|].
+    assert (Hs : exists s1 st, sq' (l' :: y1 :: z1) = s1 :: st /\ (is_nil l' = false -> s1 = l')).
+    { destruct l' as [|c' l'].
+      - destruct (sq' ([] :: y1 :: z1)) as [|s1 st] eqn:ES;
+          [exfalso; apply (sq'_nonempty ([] :: y1 :: z1)); [discriminate | exact ES]|].
+        exists s1, st. split; [reflexivity | discriminate].
+      - rewrite sq'_cons_nonempty by discriminate. eexists _, _. split; [reflexivity | reflexivity]. }
+    destruct Hs as (s1 & st & ES & Hs1). rewrite ES in *.
+    destruct st as [|s2 st']; [reflexivity|].
+    change (dbl (l :: s1 :: s2 :: st')) with ((is_nil l && is_nil s1) || dbl (s1 :: s2 :: st')).
+    rewrite IH, orb_false_r.
+    destruct (is_nil l) eqn:El; [|reflexivity]. cbn [andb] in E. rewrite (Hs1 E). cbn [andb]. exact E.
+Qed.
+
+Lemma has3nl_prefix a b : has3nl (a ++ b) = false -> has3nl a = false.
+Proof.
+  induction a as [|x a IH]; [reflexivity|]. destruct a as [|y1 [|z1 a']]; try reflexivity.
+  cbn [app has3nl]. intros H. apply orb_false_iff in H. destruct H as [H1 H2]. rewrite H1. cbn [orb].
+  apply IH. exact H2.
+Qed.
+
+Lemma has3nl_snoc_nl a c : c <> NL -> has3nl (a ++ [c; NL]) = has3nl (a ++ [c]).
+Proof.
+  intros Hc. apply Z.eqb_neq in Hc. induction a as [|x a IH].
+  - reflexivity.
+  - destruct a as [|y1 a'].
+    + cbn [app has3nl]. rewrite Hc, andb_false_r. reflexivity.
+    + destruct a' as [|z1 a''].
+      * cbn [app] in *. cbn [has3nl]. rewrite Hc, !andb_false_r. reflexivity.
+      * cbn [app] in *. cbn [has3nl]. cbn [has3nl] in IH. rewrite IH. reflexivity.
+Qed.
+
+Lemma trail_nl_spec s :
+  (s = [] /\ trail_nl s = []) \/
+  (s <> [] /\ forallb is_sp_nl s = true /\ trail_nl s = [NL]) \/
+  (exists a c b, s = a ++ c :: b /\ is_sp_nl c = false /\ forallb is_sp_nl b = true /\
+                 trail_nl s = a ++ c :: (if is_nil b then [] else [NL])).
+Proof.
+  induction s as [|x r IH]; [left; auto|]. right. cbn [trail_nl].
+  destruct (forallb is_sp_nl (x :: r)) eqn:F.
+  - left. split; [discriminate | split; reflexivity].
+  - right. destruct IH as [[-> ->] | [(Hne & Fr & ->) | (a & c & b & -> & Hc & Hb & ->)]].
+    + exists [], x, []. cbn in F. rewrite andb_true_r in F. repeat split; assumption.
+    + exists [], x, r. cbn [forallb] in F. rewrite Fr, andb_true_r in F.
+      destruct r; [congruence|]. repeat split; assumption.
+    + exists (x :: a), c, b. repeat split; assumption.
+Qed.
+
+Lemma has3nl_trail_nl s : has3nl s = false -> has3nl (trail_nl s) = false.
+Proof.
+  intros H. destruct (trail_nl_spec s) as [[-> ->] | [(_ & _ & ->) | (a & c & b & -> & Hc & _ & ->)]];
+    try reflexivity.
+  assert (Hc' : c <> NL).
+  { intros ->. unfold is_sp_nl in Hc. rewrite Z.eqb_refl, orb_true_r in Hc. discriminate. }
+  assert (Hp : has3nl (a ++ [c]) = false).
+  { apply (has3nl_prefix _ b). rewrite <- app_assoc. exact H. }
+  destruct (is_nil b); [exact Hp|]. rewrite has3nl_snoc_nl by exact Hc'. exact Hp.
+Qed.
+
+Theorem fmt_run_blank_lines cfg r : has3nl (fmt_run cfg r) = false.
+Proof.
+  destruct (split_nl (canon_ws r)) as [|l0 ls] eqn:HS; [destruct (split_nl_nonempty _ HS)|].
+  rewrite (fmt_run_lines cfg r l0 ls HS).
+  pose proof (split_nl_noNL (canon_ws r)) as HN. rewrite HS in HN.
+  pose proof (noNL_fmt_lines cfg l0 ls HN) as HM.
+  assert (E : has3nl (joinl (fmt_lines cfg l0 ls)) = false).
+  { unfold fmt_lines in *. inversion HM; subst. cbn [joinl]. rewrite has3nl_pass by assumption.
+    rewrite has3nl_flat by assumption. rewrite sq_eq. apply dbl_sq'. }
+  destruct (f_at_end cfg); [apply has3nl_trail_nl|]; exact E.
+Qed.
+
+(* ====================================================================== D: the end of the file *)
+Theorem fmt_run_end cfg r : f_at_end cfg = true ->
+  fmt_run cfg r = [] \/ fmt_run cfg r = [NL] \/
+  exists a c, is_sp_nl c = false /\ (fmt_run cfg r = a ++ [c] \/ fmt_run cfg r = a ++ [c; NL]).
+Proof.
+  intros He.
+  destruct (split_nl (canon_ws r)) as [|l0 ls] eqn:HS; [destruct (split_nl_nonempty _ HS)|].
+  rewrite (fmt_run_lines cfg r l0 ls HS), He.
+  destruct (trail_nl_spec (joinl (fmt_lines cfg l0 ls)))
+    as [[_ ->] | [(_ & _ & ->) | (a & c & b & _ & Hc & _ & ->)]]; auto.
+  right. right. exists a, c. split; [exact Hc|]. destruct (is_nil b); auto.
+Qed.
